@@ -171,7 +171,7 @@ def C_find_gates(repo, clause):
     ok = lo == 1 and isinstance(hi, ast.Call) and call_name(hi) == "len" and ast.unparse(hi.args[0]) == fn.params[1]
     obs.append(Ob("Cgate", clause, fn, pos_loop, ok, "pattern positions 1 .. len(pattern)-1 are each extended in turn (position 0 is the start atom)", slot="position-loop"))
     start = [n for n in fn.own_nodes() if isinstance(n, ast.Call) and call_name(n) == "atoms_of_type"]
-    ok = len(start) == 1 and len(start[0].args) == 2 and re.sub(r"\s", "", ast.unparse(start[0].args[1])) in ("%s.elements[0]" % fn.params[1], "pattern_elements[0]")
+    ok = len(start) == 1 and len(start[0].args) == 2 and re.sub(r"\s", "", ast.unparse(expand(fn, start[0].args[1]))) == "%s.elements[0]" % fn.params[1]
     obs.append(Ob("Cgate", clause, fn, start[0] if start else fn.node, ok, "start atoms are the atoms with the element of pattern position 0", slot="start-element"))
     # element gate
     gs = norm_guards(fn, app, stop=pos_loop)
@@ -401,8 +401,15 @@ def C_axis_diag(repo, clause):
                         if isinstance(s, ast.If) and "cell_is_orthorhombic" in ast.unparse(s.test) and isinstance(s.test, ast.UnaryOp):
                             inner = [x for x in s.body if isinstance(x, ast.If) and any(isinstance(r, ast.Raise) for r in x.body)]
                             if inner:
-                                tt = re.sub(r"\s", "", ast.unparse(inner[0].test))
-                                upper = all(("cell[%d,%d]!=0" % ij) in tt for ij in ((0, 1), (0, 2), (1, 2)))
+                                from .common import eq_const
+                                found = set()
+                                for cmp_ in ast.walk(inner[0].test):
+                                    e = eq_const(cmp_) if isinstance(cmp_, ast.Compare) else None
+                                    if e is not None and not e[2] and e[1] == 0 and isinstance(e[0], ast.Subscript) and _is_cell_expr(e[0].value) \
+                                            and isinstance(e[0].slice, ast.Tuple):
+                                        found.add(tuple(const_value(x) for x in e[0].slice.elts))
+                                ors = isinstance(inner[0].test, ast.BoolOp) and isinstance(inner[0].test.op, ast.Or)
+                                upper = ors and found == {(0, 1), (0, 2), (1, 2)}
                                 if upper and fn.cfg.postdominates(s, fn.stmt_of(c)):
                                     ok, why = True, "followed on every path by the lower-triangular validation (raise unless cell[0,1], cell[0,2], cell[1,2] are 0)"
             if not ok:
@@ -499,15 +506,25 @@ def C_axis_replicate(repo, clause):
     obs.append(Ob("Caxis", clause, fn, tr[0], ok, "image offset `%s` = sum over lattice vectors of multiplier_k * row_k (contracts the lattice axis)" % how, slot="image-translation"))
     # multipliers: range(r) per dimension, zero image removed exactly once
     mg = [c for c in calls_in(fn) if call_name(c) == "meshgrid"]
-    ok = len(mg) == 1 and len(mg[0].args) == 1 and isinstance(mg[0].args[0], ast.Starred) and re.sub(r"\s", "", ast.unparse(mg[0].args[0].value)) == \
-        "[range(r)forrin%s]" % fn.params[1]
+    ok = False
+    if len(mg) == 1 and len(mg[0].args) == 1 and isinstance(mg[0].args[0], ast.Starred) and isinstance(mg[0].args[0].value, ast.ListComp):
+        lc = mg[0].args[0].value
+        g = lc.generators[0]
+        ok = len(lc.generators) == 1 and not g.ifs and isinstance(g.iter, ast.Name) and g.iter.id == fn.params[1] and isinstance(g.target, ast.Name) \
+            and isinstance(lc.elt, ast.Call) and call_name(lc.elt) == "range" and len(lc.elt.args) == 1 and ast.unparse(lc.elt.args[0]) == g.target.id
     obs.append(Ob("Caxis", clause, fn, mg[0] if mg else fn.node, ok, "image multipliers enumerate range(factor) on each of the three axes", slot="multipliers"))
     rs = [c for c in calls_in(fn) if call_name(c) == "reshape" and mg and any(x is mg[0] for x in ast.walk(c))]
     ok = len(rs) == 1 and [const_value(a) for a in rs[0].args] == [-1, 3] and ".T.reshape" in ast.unparse(rs[0]).replace(" ", "")
     obs.append(Ob("Caxis", clause, fn, rs[0] if rs else fn.node, ok, "multiplier grid is flattened to rows of three integers (one per lattice axis)", slot="multipliers-shape"))
     flt = [n for n in fn.own_nodes() if isinstance(n, ast.Assign) and isinstance(n.value, ast.Subscript) and isinstance(n.value.slice, ast.Call)
            and call_name(n.value.slice) == "any"]
-    ok = len(flt) == 1 and re.sub(r"\s", "", ast.unparse(flt[0].value.slice)) == "np.any(%s!=0,axis=1)" % ast.unparse(flt[0].value.value)
+    ok = False
+    if len(flt) == 1:
+        from .common import eq_const
+        c = flt[0].value.slice
+        e = eq_const(c.args[0]) if c.args and isinstance(c.args[0], ast.Compare) else None
+        ax = kwarg(c, "axis")
+        ok = e is not None and not e[2] and e[1] == 0 and ast.unparse(e[0]) == ast.unparse(flt[0].value.value) and const_value(ax) == 1
     obs.append(Ob("Caxis", clause, fn, flt[0] if flt else fn.node, ok, "exactly the all-zero multiplier (already present as the copy) is removed", slot="zero-image-removed"))
     # the accumulator starts as a copy of self; every image is a copy of self
     cps = [n for n in fn.own_nodes() if isinstance(n, ast.Assign) and isinstance(n.value, ast.Call) and call_name(n.value) == "copy" and ast.unparse(n.value.func.value) == "self"]
